@@ -326,7 +326,7 @@ def apply_cases(ctx, rnd):
                 uc, tc = (r['tc'], r['uc']) if via == 'inv' else (r['uc'], r['tc'])
                 cur_ok = uc if form != 'div' else tc
                 for mode in (MODES if not quick else MODES[::3]):
-                    for n in (1, 7, 125, 999, 12345, -5, -999):
+                    for n in (1, 7, 125, 999, 12345, -5, -999, 10 ** 9 + 7, -(10 ** 11) - 3):   # large: a rate off by 1e-7 shows
                         a = F(n, 10 ** md[cur_ok])
                         cs.append(dict(op='money_rate', form=form, kind='mul' if form != 'div' else 'div', cur=cur_ok,
                                        an=a.numerator, ad=a.denominator, r=r, via=via, mode=mode, rep='dec'))
